@@ -47,6 +47,10 @@ def _env():
         def read_components_from_file(self, v_file_path, blob):
             d = json.load(blob.data_stream)
             return {k: [int(x) for x in v.split('.')] for k, v in d.items()}
+    class App2(App):
+        """parent that pins two components"""
+        _COMPONENTS_VERSIONS_LOCATIONS = {'lib': 'DEPENDS', 'lib2': 'DEPENDS'}
+    _ENV.update(App2=App2)
     _ENV.update(Lib=Lib, LibV=LibV, LibS=LibS, App=App, ReposCollection=ReposCollection, RBuild=RBuild, ProjectRepo=ProjectRepo)
     return _ENV
 
@@ -75,20 +79,33 @@ def observe(case):
         lib_tags = {}
     lib = ghmock.Repo('lib', lib_commits, lib_tags, {'master': ck}, time_step=600)
     h = case['h']
+    # second component: the same history under another name, pinned by every parent commit at the highest pin that
+    # occurs for the first component (a pin that never moves)
+    two = bool(case.get('two')) and not vfile and not saved
+    top = max(range(h['n']), key=lambda k: (case['pin'][k], case['pin2'][k]))
+    pin_lib2 = '1.0.%d' % (100 + 2 * case['pin'][top] + (1 if case['pin2'][top] else 0))
     app_commits, app_tags = {}, {}
     for c in range(1, h['n'] + 1):
         ps = sorted(h['parents'][c - 1], reverse=(c % 2 == 1))
         files = {'DEPENDS': json.dumps({'lib': '1.%d.%d' % (minor(case['pin'][c - 1]), 100 + 2 * case['pin'][c - 1] + (1 if case['pin2'][c - 1] else 0))})}
+        if two:
+            d = json.loads(files['DEPENDS'])
+            d['lib2'] = pin_lib2
+            files = {'DEPENDS': json.dumps(d)}
         app_commits[c] = (ps, ('BUG-7 app %d' % c) if h['match'][c - 1] else 'app other %d' % c, files)
         if h['tagged'][c - 1]:
             app_tags[_tag(c)] = c
     app = ghmock.Repo('app', app_commits, app_tags, dict(h['head']), time_step=600)
     order = case.get('supply', 0)
-    repos = [('lib', e['LibS' if saved else ('LibV' if vfile else 'Lib')]('lib', lib, 'origin')), ('app', e['App']('app', app, 'origin'))]
+    repos = [('lib', e['LibS' if saved else ('LibV' if vfile else 'Lib')]('lib', lib, 'origin')),
+             ('app', e['App2' if two else 'App']('app', app, 'origin'))]
+    if two:
+        lib2 = ghmock.Repo('lib2', lib_commits, lib_tags, {'master': ck}, time_step=600)
+        repos.insert(1 if order else 0, ('lib2', e['Lib']('lib2', lib2, 'origin')))
     if order:
         repos.reverse()
     coll = e['ReposCollection'](dict(repos))
-    if coll.sorted_repos != ['lib', 'app']:
+    if coll.sorted_repos[-1] != 'app' or sorted(coll.sorted_repos) != sorted(r[0] for r in repos):
         return 'repositories analysed in the order %s' % coll.sorted_repos
     data = dict(coll.make_reports_data('BUG-7'))
     libg, appg = data['lib'], data['app']
@@ -237,6 +254,7 @@ def run(ctx):
     ctx.extra['history_pairs_simulated_5_component_commits'] = len(sim5)
     for i, c in enumerate(cases):
         c['supply'] = i % 2
+        c['two'] = (i // 8) % 2           # the parent pins a second component as well
         c['vfile'] = (i // 2) % 2         # how the component's builds get their major.minor: tag text / VERSION file
         # third way: no tags, a build is a bump of the saved number (needs: one build per commit, roots are builds,
         # a head that is a plain merge is excluded: it would be an unbuilt head that carries the number of a build which
